@@ -1,7 +1,8 @@
 /-
   Obligation regenerated on every run: the decision table of the REAL `RunContext.is_task_to_be_skipped`,
   obtained by executing it on its complete finite domain (2^7 combinations of the facts it reads), equals the
-  model's `skipReason`.  `Generated/C11Tables.lean` is written by harness/props/c08.py (`tables`).
+  model's `skipReason`.  `Generated/C11Tables.lean` is written by harness/props/c11.py (`tables`): the skip table and the bound of the
+  real event queue.
 -/
 import LccModel.Model.RunAccept
 import LccModel.Generated.C11Tables
@@ -20,5 +21,9 @@ def eval (r : (Bool × Bool × Bool × Bool × Bool × Bool × Bool)) : String :
   reasonName (skipReason a b c d e f g)
 
 theorem skip_table_agrees : ∀ r ∈ skipTable, eval r.1 = r.2 := by decide +kernel
+
+/-- the queue of the real `AsyncEventManager` is unbounded (`maxsize` 0), which is what the theorems of
+    `Props/C11Events.lean` (`fire_never_blocks`, `close_never_blocks`, …) assume: `init none` -/
+theorem em_queue_is_unbounded : ∀ r ∈ emQueueBound, r.2 = 0 := by decide
 
 end LccModel.Generated.C11
